@@ -333,7 +333,7 @@ EventOK(ev) == /\ Sane(ev)
                     [] ev.op \in {"OpApply", "OpBF"} -> EventOK_Ops(ev)
                     [] ev.op = "Gen" -> GenEvOK(ev)
                     [] ev.op = "Interp" -> InterpEvOK(ev)
-                    [] ev.op \in {"FpGen", "FpEval", "FpBin", "FpApply", "FpBF", "FpInt"} -> FpEvOK(ev)
+                    [] ev.op \in {"FpGen", "FpEval", "FpBin", "FpApply", "FpBF", "FpInt", "FpInterp"} -> FpEvOK(ev)
                     [] ev.op = "FpGridNew" -> FpGridNewOK(ev)
                     [] ev.op \in {"ExDiffusion", "ExPotential", "ExOscillator", "ExHydrogen"} -> ExEvOK(ev)
                     [] OTHER -> FALSE
